@@ -399,6 +399,7 @@ class URL:
         if port is not None:
             if isinstance(port, bool) or not isinstance(port, int):
                 raise TypeError(f"The port is required to be int, got {type(port)!r}.")
+            port = int(port)  # an int subclass (Enum mix-in) need not format as a number
             if not (0 <= port <= 65535):
                 raise ValueError(f"port must be between 0 and 65535, got {port}")
         if port and not host:
@@ -1151,6 +1152,7 @@ class URL:
         if port is not None:
             if isinstance(port, bool) or not isinstance(port, int):
                 raise TypeError(f"port should be int or None, got {type(port)}")
+            port = int(port)  # an int subclass (Enum mix-in) need not format as a number
             if not (0 <= port <= 65535):
                 raise ValueError(f"port must be between 0 and 65535, got {port}")
         if not (netloc := self._netloc):
